@@ -14,13 +14,14 @@ RULE = (
     "with bare-name, module-attribute, alias and functools.wraps references, callees invoked through a force_local() clone, and hidden calls through globals()/sys.modules (also to explicitly-versioned functions and through clones). Oracle: the harness' own reachability over the generated graph. "
     "transitive_memento_fn_dependencies == memento nodes reachable from f (through any nodes) minus f; direct_... == memento nodes named in f's own body minus f; df() == pairs (memento m -> memento m' != m) "
     "with a path from m to m' through plain nodes only, for m = f or reachable from f. Enforcement: calling f with arguments 1 and 2, the outcome is UndeclaredDependencyError iff a simulation of the execution meets a "
-    "call from an automatically-versioned memento frame to a memento function that is neither in that frame's closure nor the frame itself; otherwise the value equals the un-memoized run. "
+    "call from an automatically-versioned memento frame to a memento function that is neither in that frame's closure nor the frame itself; otherwise the value equals the un-memoized run; the roots are then called with every hidden callee handed over in the context arguments (those calls are allowed) and once more without (refused again). "
+    "For random programs one plain helper is additionally re-defined in the running process with a retargeted call edge (no memento registration) and the closures are asked again and compared with the model of the edited program. "
     "Non-trivial = graph with a cycle, a memento node reachable only through a plain node, or a hidden edge; distinct by graph."
 )
 ASSUMPTIONS = [
     "closures are compared for automatically-versioned functions only (an explicit version switches the function's own dependency analysis off by design); explicitly-versioned memento functions do appear as graph nodes and as callees of hidden calls, and the dependency-graph edge set of a function is not compared when an explicitly-versioned function lies beneath it",
     "self-pairs are not demanded in df() (the code never links a function to itself and the property does not ask for it)",
-    "all functions live in one generated package (documented scope of dependency detection)",
+    "all functions live in one generated package - in its sub-modules and, for a third of the random programs, in its __init__.py (documented scope of dependency detection)",
     "each program is imported in a fresh forked process",
 ]
 MANIFEST = {
@@ -65,7 +66,7 @@ def exhaustive_cases(max_n):
 
 
 def _qn(prog, d):
-    return "%s%s.%s:%s" % ((d["cluster"] + "::") if d.get("cluster") else "", prog["pkg"], d["mod"], d["name"])
+    return "%s%s:%s" % ((d["cluster"] + "::") if d.get("cluster") else "", progs.modname(prog, d["mod"]), d["name"])
 
 
 def _static_edges(prog, name):
@@ -106,8 +107,9 @@ def model(prog):
     return res, fl, succ
 
 
-def simulate(prog, root, x, mdl, fl):
-    """'ude' if the execution of root(x) on an empty store meets a refused call, else 'ok'."""
+def simulate(prog, root, x, mdl, fl, passed=()):
+    """'ude' if the execution of root(x) on an empty store meets a refused call, else 'ok'.
+    `passed`: memento functions handed over in the (inherited) context arguments - always allowed."""
     memo = {}
 
     def run(name, x, frame):
@@ -139,7 +141,7 @@ def simulate(prog, root, x, mdl, fl):
             for e in order:
                 t = progs.resolve_fn(prog, e["f"])["name"]
                 if fl[t]["memento"] and frame is not None and fl[frame].get("version") is None:
-                    if t != frame and t not in mdl[frame]["trans"]:
+                    if t != frame and t not in mdl[frame]["trans"] and t not in passed:
                         r = "ude"
                         break
                 if run(t, x - 1, frame) == "ude":
@@ -152,45 +154,102 @@ def simulate(prog, root, x, mdl, fl):
     return run(root, x, None)
 
 
+def _compare_deps(out, prog, deps, when):
+    mdl, fl, succ = model(prog)
+    qn = {n: _qn(prog, fl[n]) for n in fl}
+    for n, m_ in mdl.items():
+        if fl[n].get("version") is not None:
+            # an explicit version switches the function's own dependency analysis off by design
+            continue
+        key = "%s.%s" % (fl[n]["mod"], n)
+        g = deps.get(key)
+        if g is None or "error" in g:
+            out.violation("dependencies() of %s failed%s: %s" % (n, when, g), symptom="dependencies-raised", evolved=bool(when))
+            continue
+        want_t = sorted(qn[t] for t in m_["trans"])
+        want_d = sorted(qn[t] for t in m_["direct"])
+        want_df = sorted([qn[a], qn[b]] for a, b in m_["df"])
+        if g["trans"] != want_t:
+            out.violation("transitive dependencies of %s%s: reported %r, reachable memento functions are %r" % (n, when, g["trans"], want_t),
+                          symptom="transitive-differs", missing=bool(set(want_t) - set(g["trans"])), extra=bool(set(g["trans"]) - set(want_t)), evolved=bool(when))
+        if g["direct"] != want_d:
+            out.violation("direct dependencies of %s%s: reported %r, named in its body are %r" % (n, when, g["direct"], want_d),
+                          symptom="direct-differs", missing=bool(set(want_d) - set(g["direct"])), extra=bool(set(g["direct"]) - set(want_d)), evolved=bool(when))
+        gdf = sorted(e for e in g["df"] if e[0] != e[1])
+        if any(fl[t].get("version") is not None for t in m_["trans"]):
+            # the graph below an explicitly-versioned function is not demanded (its analysis is off by design)
+            out.labels.append("graph-not-compared-explicit-below")
+        elif gdf != want_df:
+            out.violation("dependency graph of %s%s: edges %r, expected %r" % (n, when, gdf, want_df), symptom="graph-differs", evolved=bool(when))
+
+
+def _evolution(case):
+    """(program after re-defining one plain helper with a retargeted call edge, cells, info) or (None, [], {})"""
+    ev = case.get("evolve")
+    prog = case["program"]
+    plain = [f["name"] for f in progs.fns(prog) if not f["memento"]]
+    if not ev or not plain:
+        return None, [], {}
+    # aliases/wrappers of the helper would keep the old object alive
+    plain = [n for n in plain if not any(d["k"] in ("alias", "wrapper") and d["target"] == n for d in prog["defs"])]
+    if not plain:
+        return None, [], {}
+    # prefer a helper that another plain helper refers to (two or more levels below any memento function)
+    deep = [n for n in plain if any(n in [progs.resolve_fn(prog, c)["name"] for c in progs.edges(prog, o["name"], include_hidden=False)[0]]
+                                    for o in progs.fns(prog) if not o["memento"] and o["name"] != n)]
+    if deep and ev.get("which", 0) % 4 != 3:
+        plain = deep
+    target = plain[ev.get("which", 0) % len(plain)]
+    p2, info = progs.apply_edit(prog, dict(ev, kind="retarget", target=target), "v")
+    if not info["applied"] or info.get("bumped"):
+        return None, [], {}
+    dd = progs.find(p2, target)
+    return p2, [[dd["mod"], progs.render_def(p2, dd)]], info
+
+
 def execute(case, scratch):
     out = core.Outcome()
     d = env.fresh_dir(scratch, "c14-")
     try:
         prog = case["program"]
+        p2, evolve_cells, evolve_info = _evolution(case)
+        passing = sorted({(progs.resolve_fn(prog, e["f"])["mod"], progs.resolve_fn(prog, e["f"])["name"]) for f in progs.fns(prog)
+                          for e in progs.exprs_of(f) if e["e"] == "hidden" and progs.resolve_fn(prog, e["f"])["memento"]}) if case.get("handover", True) else []
         progrun.write_files(d, progs.render_files(prog))
         mem_fns = [[f["mod"], f["name"]] for f in progs.fns(prog) if f["memento"]]
         roots = [[f["mod"], f["name"]] for f in progs.fns(prog) if f["memento"] and f.get("version") is None]
         spec = {"pkgroot": d, "pkg": prog["pkg"], "modules": prog["modules"], "store": os.path.join(d, "store"),
                 "fns": mem_fns, "roots": roots, "args": [1, 2]}
-        got = proc.forkrun(progrun.run_deps, dict(spec, identity=False))
-        ref = proc.forkrun(progrun.run_deps, dict(spec, identity=True), env={"VERIF_RT_IDENTITY": "1"})
+        got = proc.forkrun(progrun.run_deps, dict(spec, identity=False, passing=[list(x) for x in passing], pass_arg=1, after_arg=3,
+                                                  evolve_cells=evolve_cells))
+        ref = proc.forkrun(progrun.run_deps, dict(spec, identity=True, args=[1, 2, 3]), env={"VERIF_RT_IDENTITY": "1"})
         mdl, fl, succ = model(prog)
         qn = {n: _qn(prog, fl[n]) for n in fl}
-        for n, m_ in mdl.items():
-            if fl[n].get("version") is not None:
-                # an explicit version switches the function's own dependency analysis off by design
-                continue
-            key = "%s.%s" % (fl[n]["mod"], n)
-            g = got["deps"].get(key)
-            if g is None or "error" in g:
-                out.violation("dependencies() of %s failed: %s" % (n, g), symptom="dependencies-raised")
-                continue
-            want_t = sorted(qn[t] for t in m_["trans"])
-            want_d = sorted(qn[t] for t in m_["direct"])
-            want_df = sorted([qn[a], qn[b]] for a, b in m_["df"])
-            if g["trans"] != want_t:
-                out.violation("transitive dependencies of %s: reported %r, reachable memento functions are %r" % (n, g["trans"], want_t),
-                              symptom="transitive-differs", missing=bool(set(want_t) - set(g["trans"])), extra=bool(set(g["trans"]) - set(want_t)))
-            if g["direct"] != want_d:
-                out.violation("direct dependencies of %s: reported %r, named in its body are %r" % (n, g["direct"], want_d),
-                              symptom="direct-differs", missing=bool(set(want_d) - set(g["direct"])), extra=bool(set(g["direct"]) - set(want_d)))
-            gdf = sorted(e for e in g["df"] if e[0] != e[1])
-            if any(fl[t].get("version") is not None for t in m_["trans"]):
-                # the graph below an explicitly-versioned function is not demanded (its analysis is off by design)
-                out.labels.append("graph-not-compared-explicit-below")
-            elif gdf != want_df:
-                out.violation("dependency graph of %s: edges %r, expected %r" % (n, gdf, want_df), symptom="graph-differs")
+        _compare_deps(out, prog, got["deps"], "")
+        if p2 is not None and "deps2" in got:
+            _compare_deps(out, p2, got["deps2"], " after re-defining plain helper %s in the running process" % evolve_info.get("target"))
         hidden_exec = False
+        # functions handed over as (context) arguments may be called; afterwards the refusal is back
+        if passing and not out.violations:
+            for mname, name in roots:
+                key = "%s.%s" % (mname, name)
+                r1 = ref["results"][key]
+                for which, arg, passed_set in (("passed", 1, {t for _, t in passing}), ("after", 3, set())):
+                    m1 = got[which][key]
+                    sim = simulate(prog, name, arg, mdl, fl, passed=passed_set)
+                    rr = r1[{1: 0, 2: 1, 3: 2}[arg]]
+                    label = "%s(%d)%s" % (name, arg, " with %s handed over in the context arguments" % sorted(passed_set) if passed_set else " (no functions handed over, after a call that had them)")
+                    if sim == "ude":
+                        hidden_exec = True
+                        if m1.get("exc") != "UndeclaredDependencyError":
+                            out.violation("%s makes a call outside its closure (per simulation) but the outcome was %r" % (label, m1),
+                                          symptom="undeclared-call-not-refused", phase=which)
+                    elif m1.get("exc") == "UndeclaredDependencyError":
+                        out.violation("%s was refused although every call stays inside the closure or targets a handed-over function: %s" % (label, m1.get("msg")),
+                                      symptom="declared-call-refused", phase=which)
+                    elif "exc" not in rr and m1 != rr:
+                        out.violation("%s gave %r, un-memoized run gives %r" % (label, m1, rr), symptom="wrong-value", phase=which)
+            out.labels.append("functions-handed-over")
         for mname, name in roots:
             key = "%s.%s" % (mname, name)
             for ai, x in enumerate([1, 2]):
@@ -216,9 +275,10 @@ def execute(case, scratch):
         out.nontrivial = cyc or via_plain or "hidden" in feats
         out.labels = sorted(set(out.labels)) + ["src:" + case.get("src", "random")] + (["cycle"] if cyc else []) + (["memento-via-plain-or-memento"] if via_plain else []) + \
             (["hidden-edge"] if "hidden" in feats else []) + (["refusal-expected"] if hidden_exec else []) + \
-            ["feat:" + f for f in feats if f in ("alias-or-wrapper", "two-modules", "explicit-version", "hidden-to-explicit", "hidden-via-clone", "call-via-clone")]
+            ["feat:" + f for f in feats if f in ("alias-or-wrapper", "two-modules", "explicit-version", "hidden-to-explicit", "hidden-via-clone", "call-via-clone", "package-init-module")] + \
+            (["evolved-in-process"] if p2 is not None else [])
         out.nt_key = prog
-        out.render = {"src": case.get("src"), "files": {k: v[v.index("return w") + 10:] for k, v in progs.render_files(prog).items() if not k.endswith("__init__.py")}}
+        out.render = {"src": case.get("src"), "files": {k: v[v.index("return w") + 10:] for k, v in progs.render_files(prog).items() if v}}
         return out
     finally:
         env.rm(d)
@@ -240,8 +300,9 @@ def replay(case, ctx):
 
 def strategy(thorough):
     from hypothesis import strategies as st
-    return st.builds(lambda p: {"program": p, "src": "random"},
-                     progs.program_strategy(max_fns=8 if thorough else 6, allow_explicit=True, allow_cluster=True))
+    evolve = st.integers(0, 3).flatmap(lambda i: st.none() if i == 0 else st.builds(lambda e, w: dict(e, which=w), progs.edit_strategy(), st.integers(0, 7)))
+    return st.builds(lambda p, ev: {"program": p, "src": "random", "evolve": ev},
+                     progs.program_strategy(max_fns=8 if thorough else 6, allow_explicit=True, allow_cluster=True, allow_init=True), evolve)
 
 
 def run_shard(ctx):
